@@ -89,7 +89,7 @@ BOUNDS = {
              "keyword-only def default, <%block args>, filter-call argument); 4 further filter-call argument kinds (k=E, *E, **E, mixed) at depth 1",
         "b": "blocks <=2 statements depth <=2 over 11 of the 15 statement kinds; 17 of the 26 literal forms in every single hole; 27 layouts: "
              "15 margins (LF, code on the next line, <% %> in the body) + 2 margins x 3 other positions + 6 first-line/CRLF/TAB-unit variants",
-        "c": "32 expression binders x 21 positions (8 spellings of the nested def, 6 of the free name for the declaration-order dimension), "
+        "c": "44 expression binders (12 of them: a name bound inside a lambda body and read as a free name later in the same expression) x 22 positions (8 spellings of the nested def, 6 of the free name for the declaration-order dimension), "
              "41 statement binders x 4 positions, 10 control-line binders; read inside, own name read outside, leaked name read outside; "
              "full environment, then every free name removed",
     },
